@@ -1,0 +1,19 @@
+//go:build verif
+
+package packfile
+
+import (
+	"io"
+
+	"github.com/wrgl/wrgl/pkg/encoding"
+)
+
+// EncodeObjTypeAndLen exposes encodeObjTypeAndLen to the verification harness.
+func EncodeObjTypeAndLen(buf encoding.Bufferer, objType int, u uint64) []byte {
+	return encodeObjTypeAndLen(buf, objType, u)
+}
+
+// DecodeObjTypeAndLen exposes decodeObjTypeAndLen to the verification harness.
+func DecodeObjTypeAndLen(r io.Reader) (objType int, u uint64, err error) {
+	return decodeObjTypeAndLen(r)
+}
